@@ -268,7 +268,7 @@ pub fn rec_views(args: &Args) {
     }
     // two and three stored values under the options the typed getters read (possible through the raw
     // calls and the decoder): which value a getter looks at, and what it does when that one is unusable
-    let raws: [&[u8]; 10] = [&[], &[0], &[1], &[50], &[0, 50], &[1, 0], &[255, 255], &[1, 2, 3], &[0, 0, 50], &[1, 2, 3, 4, 5]];
+    let raws: [&[u8]; 13] = [&[], &[0], &[1], &[50], &[0, 50], &[1, 0], &[255, 255], &[1, 2, 3], &[0, 0, 50], &[1, 2, 3, 4, 5], &[1, 0, 0, 0], &[2, 0, 0, 1], &[0, 0, 0, 1]];
     for opt in [CoapOption::ContentFormat, CoapOption::Observe, CoapOption::Accept] {
         for a in raws {
             for b in raws {
